@@ -21,6 +21,27 @@ type filterCfg struct {
 	prefixes, re, list string // field names ("" if absent)
 }
 
+// nilResolverReturn selects returns that offer no resolver and no error (the controller declines the lookup).
+func nilResolverReturn(s *an.State, ins ssa.Instruction) bool {
+	ret, ok := ins.(*ssa.Return)
+	return ok && len(ret.Results) == 2 && s.IsNil(s.RetVal(ret, 0)) && !s.KnownNonNilErr(s.RetVal(ret, 1))
+}
+
+// declineGate: "exactly when" — the converse of the offer gate. A decline is a violation when, on that path, every
+// positive requirement of the offer gate is known to hold and no rejecting condition is known.
+func declineGate(c *an.Check, construct string, fn *ssa.Function, mark func(*an.State, ssa.Value, bool), pass []an.Req, rejects func(*an.State) bool) {
+	c.Gate(an.GateSpec{Construct: construct, Fn: fn, Mark: mark, Sink: nilResolverReturn, Reqs: []an.Req{{
+		Name: "some configured filter rejected the request (the lookup is not one this registration must answer)",
+		Holds: func(s *an.State, at ssa.Instruction) bool {
+			for _, r := range pass {
+				if !r.Holds(s, at) {
+					return true
+				}
+			}
+			return rejects != nil && rejects(s)
+		}}}})
+}
+
 func c35(c *an.Check) {
 	p := c.P
 	// ---- RpcServiceController
@@ -47,7 +68,7 @@ func c35(c *an.Check) {
 		}
 		reMatch := func(s *an.State, reField interface{ Name() string }, fld any, getter string) bool { return false }
 		_ = reMatch
-		c.Gate(an.GateSpec{Construct: "rpc.RpcServiceController offers a resolver", Fn: rs, Mark: mark, Sink: nonNilResolverReturn, Reqs: []an.Req{
+		rpcReqs := []an.Req{
 			an.AnyOf("requested service id passes a configured filter (or no filter is configured)",
 				an.Req{Name: "prefix", Holds: func(s *an.State, at ssa.Instruction) bool { return s.HasMark("svc-prefix") }},
 				an.Req{Name: "regexp", Holds: func(s *an.State, at ssa.Instruction) bool {
@@ -102,7 +123,17 @@ func c35(c *an.Check) {
 					}
 					return false
 				}}),
-		}})
+		}
+		c.Gate(an.GateSpec{Construct: "rpc.RpcServiceController offers a resolver", Fn: rs, Mark: mark, Sink: nonNilResolverReturn, Reqs: rpcReqs})
+		// converse: a lookup whose service id passes and whose server id is not rejected is never declined
+		declineGate(c, "rpc.RpcServiceController declines a lookup", rs, mark, rpcReqs[:1], func(s *an.State) bool {
+			for _, call := range an.Calls(rs, an.X("regexp", "Regexp", "MatchString")) {
+				if s.IsFalse(call) && an.IsFieldLoad(s.Canon(call.Call.Args[0]), srvReF) {
+					return true
+				}
+			}
+			return false
+		})
 		// strip: the prefix invoker gets the same configured prefix list the filter used
 		okStrip := false
 		for _, g := range an.WithClosures(rs) {
@@ -119,7 +150,7 @@ func c35(c *an.Check) {
 	} else {
 		mpF := fv(c, "rpc", "InvokerController", "matchServicePrefixes")
 		cCheck := an.X("github.com/aperturerobotics/starpc/srpc", "", "CheckStripPrefix")
-		c.Gate(an.GateSpec{Construct: "rpc.InvokerController offers a resolver", Fn: ic, Sink: nonNilResolverReturn, Reqs: []an.Req{
+		icReqs := []an.Req{
 			an.AnyOf("no prefixes configured, or the requested id has one of them",
 				an.FactReq("len(prefixes)==0", func(s *an.State, x, y ssa.Value, r an.Rel) bool {
 					return r == an.EQ && an.IsIntConst(y, 0) && an.LenOf(s, x, func(v ssa.Value) bool { return an.IsFieldLoad(v, mpF) })
@@ -137,7 +168,9 @@ func c35(c *an.Check) {
 						return ok && rq.Call.IsInvoke() && rq.Call.Method.Name() == "LookupRpcServiceID" && an.IsFieldLoad(s.Canon(call.Call.Args[1]), mpF)
 					})
 				})),
-		}})
+		}
+		c.Gate(an.GateSpec{Construct: "rpc.InvokerController offers a resolver", Fn: ic, Sink: nonNilResolverReturn, Reqs: icReqs})
+		declineGate(c, "rpc.InvokerController declines a lookup", ic, nil, icReqs, nil)
 	}
 	// ---- HTTPHandlerController
 	hh := p.Func("http", "HTTPHandlerController", "HandleDirective")
@@ -170,7 +203,7 @@ func c35(c *an.Check) {
 			s.SetMark("path-prefix", nil)
 		}
 	}
-	c.Gate(an.GateSpec{Construct: "http.HTTPHandlerController offers a resolver", Fn: hh, Mark: markH, Sink: nonNilResolverReturn, Reqs: []an.Req{
+	httpReqs := []an.Req{
 		an.AnyOf("requested path passes a configured filter (or none is configured)",
 			an.Req{Name: "prefix", Holds: func(s *an.State, at ssa.Instruction) bool { return s.HasMark("path-prefix") }},
 			an.Req{Name: "regexp", Holds: func(s *an.State, at ssa.Instruction) bool {
@@ -195,7 +228,9 @@ func c35(c *an.Check) {
 				}
 				return a && b
 			}}),
-	}})
+	}
+	c.Gate(an.GateSpec{Construct: "http.HTTPHandlerController offers a resolver", Fn: hh, Mark: markH, Sink: nonNilResolverReturn, Reqs: httpReqs})
+	declineGate(c, "http.HTTPHandlerController declines a lookup", hh, markH, httpReqs, nil)
 	// the prefix stripped is the one whose HasPrefix test succeeded
 	okStrip, why := false, "http.StripPrefix call not found"
 	for _, g := range an.WithClosures(hh) {
